@@ -73,12 +73,12 @@ Definition run_repl (c : text * text * text * text * text * option text * list (
 Definition run_cmdlines (c : text) : V := vlist vtext (cmdlines c).
 
 (** the observation the harness makes: the constructor's result is visible only as success or the exception *)
-Definition run_repl_obs (c : text * text * text * text * text * option text * list (list nat) * list (text * list (list nat))) : V :=
-  match c with (prompt, cont, banner, orig, change, extra, ccuts, cmds) =>
+Definition run_repl_obs (c : bool * text * text * text * text * text * option text * list (list nat) * list (text * list (list nat))) : V :=
+  match c with (echo, prompt, cont, banner, orig, change, extra, ccuts, cmds) =>
     match construct mstate (mstep prompt cont) mint prompt cont (0, []) banner orig change extra ccuts with
     | (o, w) => match o with
-                | None | Some (Returned _) => VL (VL [VI 0; vworld w] :: run_cmds prompt cont w cmds)
-                | Some o' => VL [VL [VI 1; voutcome o'; vworld w]]
+                | None | Some (Returned _) => VL (VL [VI 0; vworld w; vlist vnat (ctor_echo_calls echo)] :: run_cmds prompt cont w cmds)
+                | Some o' => VL [VL [VI 1; voutcome o'; vworld w; vlist vnat (ctor_echo_calls echo)]]
                 end
     end
   end.
